@@ -769,6 +769,31 @@ class Engine(object):
             return mk_bool(z3.And(z3.Or(lows), z3.Not(z3.Or(ups))))
         if name == "format":
             return ex.opaque_str()
+        if name in ("strip", "lstrip", "rstrip") and len(args) <= 1 and (not args or isinstance(args[0], (str, bytes))) \
+                and not kwargs:
+            # a view s[lo:hi]: everything cut off is in the character set, the first / last character kept is not
+            chars = list((args[0] if args else (" \t\n\r\x0b\x0c" if not s.is_bytes else b" \t\n\r\x0b\x0c")))
+            codes = [c if isinstance(c, int) else ord(c) for c in chars]
+            lo, hi = ex.ctx.fresh("strip_lo"), ex.ctx.fresh("strip_hi")
+            inset = lambda e: z3.Or([e == k for k in codes]) if codes else z3.BoolVal(False)
+            i = z3.Int("q_strip_i")
+            cs = [0 <= lo, lo <= hi, hi <= s.length]
+            if name == "rstrip":
+                cs.append(lo == 0)
+            else:
+                cs.append(z3.ForAll([i], z3.Implies(z3.And(0 <= i, i < lo), inset(s.at(i)))))
+                cs.append(z3.Or(lo == hi, z3.Not(inset(s.at(lo)))))
+            if name == "lstrip":
+                cs.append(hi == s.length)
+            else:
+                cs.append(z3.ForAll([i], z3.Implies(z3.And(hi <= i, i < s.length), inset(s.at(i)))))
+                cs.append(z3.Or(lo == hi, z3.Not(inset(s.at(hi - 1)))))
+            if name == "strip":
+                # an all-in-set string: lo == hi (then where the empty view sits is immaterial)
+                pass
+            for c in cs:
+                ex.ctx.assume(c)
+            return SStr(z3.simplify(hi - lo), s.arr, z3.simplify(s.off + lo), is_bytes=s.is_bytes)
         if name == "count" and len(args) == 1 and args[0] in ("#", "b") and not s.is_bytes:
             kind = "sharp" if args[0] == "#" else "flat"
             return mk_int(ex.ctx.reg.cnt(kind, s.arr, s.off, s.off + s.length))
